@@ -129,7 +129,7 @@ def src_line_of(vxlog, out_line):
     return None, None
 
 
-LABEL_RE = re.compile(r"/\*\[([A-Za-z0-9_.\-]+)\]\*/")
+LABEL_RE = re.compile(r"/\*\[([A-Za-z0-9_.+\-]+)\]\*/")
 
 
 def classify(unit, vxlog, gen_lines, res):
